@@ -40,7 +40,8 @@ RULE = ("Hypothesis draws an exact spacetime (families W, FL, F), 1-5 "
         "kwargs-driven, tensor- and 0-d-valued ones, grouped in dicts; "
         "already-present and invalid names), a list of estimates (27 built-in "
         "names, custom, invalid), AurelCore kwargs (Lambda, vacuum, "
-        "clear_cache_every_nbr_calc) and a split of the vars over 1-3 "
+        "clear_cache_every_nbr_calc, memory_threshold_inGB below the size "
+        "of one step's inputs) and a split of the vars over 1-3 "
         "successive over_time calls (earlier vars optionally repeated, "
         "estimates omitted/empty/prefix/all in earlier calls, all in the "
         "last). Oracles: fresh AurelCore per step and variable; own numpy "
